@@ -240,7 +240,9 @@ def frame_bytes(draw, state):
         retx = draw(st.integers(0, 1))
         payload = draw(st.one_of(st.binary(min_size=3, max_size=24),
                                  st.lists(st.sampled_from(list(refash.RESERVED)), min_size=3, max_size=12).map(bytes),
-                                 st.binary(min_size=0, max_size=140)))
+                                 st.binary(min_size=0, max_size=140),
+                                 # at and beyond the 256-byte limit of the randomisation sequence (still well below the buffer cap)
+                                 st.sampled_from([254, 255, 256, 257, 258, 300]).flatmap(lambda n: st.binary(min_size=n, max_size=n))))
         raw = refash.enc_data(frm, retx, draw(st.integers(0, 7)), payload)
     elif kind == "ack":
         raw = refash.enc_ack(draw(st.integers(0, 7)), draw(st.integers(0, 1)), draw(st.integers(0, 1)))
